@@ -2,7 +2,7 @@
 closures passed to meta.create_gate inside `configure`), for PolyVC.
 
 Specification side, derived from FIPS 180-4 and the limb layout named by each gate -- NOT from the
-exponent tables in the code:
+exponent tables in the code (see tools/sha_gate_spec.py):
   * a word is split into big-endian limbs of the stated bit lengths; limb i sits at bit offset
     lo_i = sum of the lengths to its right;
   * ROTR^r moves a limb from offset lo to (lo - r) mod 32 (the layouts are chosen so that no limb is
@@ -11,134 +11,32 @@ exponent tables in the code:
   * "even/odd" outputs use the 11-11-10 layout.
 Contract of every gate: its constraint set generates exactly the ideal of the specification
 polynomials (both inclusions), so no constraint is missing, weakened or pointed at the wrong cell role.
-
-Assumed callee contracts (generic loops outside PolyVC's subset, 8 lines of code in sha256/utils.rs):
-expr_pow2_ip(e, t) = sum 2^e_i t_i and expr_pow4_ip(e, t) = sum 4^e_i t_i.
 """
 import sympy as sp
 
-from polyvc import Env, Struct, Tuple, Unsupported, std_field_env
+from sha_gate_spec import Word, gate as _gate, make_env, need  # noqa: F401
 
 PROP = "C07"
 LABEL = "sha256_gates"
 FILE = "circuits/src/hash/sha256/sha256_chip.rs"
 ITEM = ["impl<F: CircuitField> ComposableChip<F> for Sha256Chip<F>", "fn configure"]
 TRUSTED = ["assumed contract: sha256/utils.rs expr_pow2_ip / expr_pow4_ip return sum 2^e_i*t_i / sum 4^e_i*t_i (generic loop, not in PolyVC's subset)"]
-
-
-def make_env():
-    env = Env()
-    std_field_env(env, base_names=("F",))
-    env.calls[("Rotation",)] = lambda en, a: a[0]
-    env.calls[("Rotation", "cur")] = lambda en, a: sp.Integer(0)
-    env.calls[("Rotation", "next")] = lambda en, a: sp.Integer(1)
-    env.calls[("Rotation", "prev")] = lambda en, a: sp.Integer(-1)
-    env.calls[("Expression", "from")] = lambda en, a: a[0]
-
-    def query_advice(en, r, a):
-        col, rot = a
-        if not (isinstance(col, Struct) and col.ty == "Col"):
-            raise Unsupported("query_advice on a non-column")
-        return sp.Symbol("a%d_%s" % (int(col.fields["i"]), str(int(rot)).replace("-", "m")))
-    env.methods[("Meta", "query_advice")] = query_advice
-
-    def ip(base):
-        def f(en, a):
-            es, ts = a
-            if not (isinstance(es, Tuple) and isinstance(ts, Tuple) and len(es.items) == len(ts.items)):
-                raise Unsupported("expr_pow_ip arguments")
-            return sum((sp.Integer(base) ** int(e)) * t for e, t in zip(es.items, ts.items))
-        return f
-    env.calls[("expr_pow2_ip",)] = ip(2)
-    env.calls[("expr_pow4_ip",)] = ip(4)
-    env.calls[("Constraints", "with_selector")] = lambda en, a: Struct("Constraints", {"selector": a[0], "polys": a[1]})
-    return env
-
-
-def gate_inputs(selector):
-    def f():
-        cols = Tuple([Struct("Col", {"i": sp.Integer(i)}) for i in range(8)])
-        return {"advice_cols": cols, "meta": Struct("Meta", {}), selector: Struct("Selector", {"name": selector})}
-    return f
-
-
-def polys_of(out, selector):
-    if not (isinstance(out, Struct) and out.ty == "Constraints"):
-        raise Unsupported("gate closure does not end in Constraints::with_selector")
-    if out.fields["selector"].fields.get("name") != selector:
-        raise Unsupported("unexpected selector")
-    return [t.items[1] for t in out.fields["polys"].items]
-
-
-def need(loc, names):
-    miss = [n for n in names if n not in loc]
-    if miss:
-        raise Unsupported("gate closure no longer binds the cell roles %s" % miss)
-    return [loc[n] for n in names]
-
-
-def offsets(lengths):
-    lo, acc = [], 0
-    for l in reversed(lengths):
-        lo.append(acc)
-        acc += l
-    assert acc == 32
-    return list(reversed(lo))
-
-
-def weighted(lengths, cells, base):
-    return sum(sp.Integer(base) ** o * c for o, c in zip(offsets(lengths), cells))
-
-
-def rotr(lengths, cells, r, base=4):
-    tot = 0
-    for l, o, c in zip(lengths, offsets(lengths), cells):
-        n = (o - r) % 32
-        assert n + l <= 32, "limb would be split by ROTR %d" % r
-        tot += sp.Integer(base) ** n * c
-    return tot
-
-
-def shr(lengths, cells, r, base=4):
-    tot = 0
-    for l, o, c in zip(lengths, offsets(lengths), cells):
-        if o >= r:
-            tot += sp.Integer(base) ** (o - r) * c
-        else:
-            assert o + l <= r, "limb would be split by SHR %d" % r
-    return tot
-
-
-def evn_odd(loc, names_e, names_o):
-    e = need(loc, names_e)
-    o = need(loc, names_o)
-    return weighted([11, 11, 10], e, 4) + 2 * weighted([11, 11, 10], o, 4)
-
-
-def same_ideal(selector, spec_fn):
-    """goals: every spec poly in <gate polys>; converse: every gate poly in <spec polys>"""
-    def goals(env, out, loc):
-        I = polys_of(out, selector)
-        spec = spec_fn(loc)
-        env.hyps += I
-        env.completeness = []
-        env.converse = [("nothing_else.constraint_%d" % i, p, spec) for i, p in enumerate(I)]
-        return [("spec_%d_enforced" % i, s) for i, s in enumerate(spec)]
-    return goals
-
-
-def gate(name, selector, spec_fn, clause):
-    import re
-    return {"item": ITEM, "closure": r'meta\.create_gate\(\s*"%s"\s*,\s*\|meta\|\s*\{' % re.escape(name),
-            "inputs": gate_inputs(selector), "hyps": lambda loc: [], "goals": same_ideal(selector, spec_fn), "clause": clause}
-
-
+W = Word(32)
+EOL = [11, 11, 10]
 EO = (["s_evn_11a", "s_evn_11b", "s_evn_010"], ["s_odd_11a", "s_odd_11b", "s_odd_010"])
 EO2 = (["s_evn_11a", "s_evn_11b", "s_evn_10"], ["s_odd_11a", "s_odd_11b", "s_odd_10"])
 LA = [10, 9, 11, 2]
 LE = [7, 12, 2, 5, 6]
 LW = [12, 1, 1, 1, 7, 3, 4, 3]
 NW = ["s12", "s1a", "s1b", "s1c", "s07", "s3a", "s04", "s3b"]
+
+
+def gate(name, selector, spec_fn, clause):
+    return _gate(ITEM, name, selector, spec_fn, clause)
+
+
+def evn_odd(loc, names_e, names_o):
+    return W.weighted(EOL, need(loc, names_e), 4) + 2 * W.weighted(EOL, need(loc, names_o), 4)
 
 
 def spec_maj(loc):
@@ -151,56 +49,45 @@ def spec_half_ch(loc):
     return [(x + y) - evn_odd(loc, *EO), (s1 + s2) - s]
 
 
-def spec_Sigma0(loc):
-    c = need(loc, ["s10", "s09", "s11", "s02"])
-    return [rotr(LA, c, 2) + rotr(LA, c, 13) + rotr(LA, c, 22) - evn_odd(loc, *EO)]
-
-
-def spec_Sigma1(loc):
-    c = need(loc, ["s07", "s12", "s02", "s05", "s06"])
-    return [rotr(LE, c, 6) + rotr(LE, c, 11) + rotr(LE, c, 25) - evn_odd(loc, *EO2)]
-
-
-def spec_sigma0(loc):
-    c = need(loc, NW)
-    return [shr(LW, c, 3) + rotr(LW, c, 7) + rotr(LW, c, 18) - evn_odd(loc, *EO2)]
-
-
-def spec_sigma1(loc):
-    c = need(loc, NW)
-    return [shr(LW, c, 10) + rotr(LW, c, 17) + rotr(LW, c, 19) - evn_odd(loc, *EO2)]
+def spec_rot(lengths, names, ops, eo):
+    def f(loc):
+        c = need(loc, names)
+        tot = 0
+        for kind, r in ops:
+            tot += W.rotr(lengths, c, r) if kind == "rotr" else W.shr(lengths, c, r)
+        return [tot - evn_odd(loc, *eo)]
+    return f
 
 
 def spec_11_11_10(loc):
     p = need(loc, ["p11a", "p11b", "p_10"])
     (o,) = need(loc, ["output"])
-    return [weighted([11, 11, 10], p, 2) - o]
+    return [W.weighted(EOL, p, 2) - o]
 
 
 def spec_dec(lengths, pn, sn):
     def f(loc):
-        p = need(loc, pn)
-        s = need(loc, sn)
         plain, sprdd = need(loc, ["plain", "sprdd"])
-        return [weighted(lengths, p, 2) - plain, weighted(lengths, s, 4) - sprdd]
+        return [W.weighted(lengths, need(loc, pn), 2) - plain, W.weighted(lengths, need(loc, sn), 4) - sprdd]
     return f
 
 
 def spec_msg_word(loc):
-    names = ["w12", "w1a", "w1b", "w1c", "w07", "w3a", "w04", "w3b"]
-    w = need(loc, names)
+    w = need(loc, ["w12", "w1a", "w1b", "w1c", "w07", "w3a", "w04", "w3b"])
     (plain,) = need(loc, ["plain"])
     one_bit = [w[i] * (w[i] - 1) for i, l in enumerate(LW) if l == 1]   # limbs not covered by the lookup
-    return [weighted(LW, w, 2) - plain] + one_bit
+    return [W.weighted(LW, w, 2) - plain] + one_bit
 
 
 FUNCTIONS = {
     "Maj": gate("Maj(A, B, C)", "q_maj", spec_maj, "~A + ~B + ~C = Evn + 2 Odd in the 11-11-10 layout"),
     "half_Ch": gate("half Ch(E, F, G)", "q_half_ch", spec_half_ch, "~X + ~Y = Evn + 2 Odd; summand_1 + summand_2 = sum"),
-    "Sigma_0": gate("Σ₀(A)", "q_Sigma_0", spec_Sigma0, "spread(ROTR2)+spread(ROTR13)+spread(ROTR22) of limbs (10,9,11,2) = Evn + 2 Odd"),
-    "Sigma_1": gate("Σ₁(E)", "q_Sigma_1", spec_Sigma1, "ROTR6, ROTR11, ROTR25 of limbs (7,12,2,5,6)"),
-    "sigma_0": gate("σ₀(W)", "q_sigma_0", spec_sigma0, "SHR3, ROTR7, ROTR18 of limbs (12,1,1,1,7,3,4,3)"),
-    "sigma_1": gate("σ₁(W)", "q_sigma_1", spec_sigma1, "SHR10, ROTR17, ROTR19 of limbs (12,1,1,1,7,3,4,3)"),
+    "Sigma_0": gate("Σ₀(A)", "q_Sigma_0", spec_rot(LA, ["s10", "s09", "s11", "s02"], [("rotr", 2), ("rotr", 13), ("rotr", 22)], EO),
+                    "spread ROTR2 + ROTR13 + ROTR22 of limbs (10,9,11,2) = Evn + 2 Odd"),
+    "Sigma_1": gate("Σ₁(E)", "q_Sigma_1", spec_rot(LE, ["s07", "s12", "s02", "s05", "s06"], [("rotr", 6), ("rotr", 11), ("rotr", 25)], EO2),
+                    "ROTR6, ROTR11, ROTR25 of limbs (7,12,2,5,6)"),
+    "sigma_0": gate("σ₀(W)", "q_sigma_0", spec_rot(LW, NW, [("shr", 3), ("rotr", 7), ("rotr", 18)], EO2), "SHR3, ROTR7, ROTR18 of limbs (12,1,1,1,7,3,4,3)"),
+    "sigma_1": gate("σ₁(W)", "q_sigma_1", spec_rot(LW, NW, [("shr", 10), ("rotr", 17), ("rotr", 19)], EO2), "SHR10, ROTR17, ROTR19 of limbs (12,1,1,1,7,3,4,3)"),
     "dec_11_11_10": gate("11-11-10 decomposition", "q_11_11_10", spec_11_11_10, "output = 2^21 p11a + 2^10 p11b + p10"),
     "dec_10_9_11_2": gate("10-9-11-2 decomposition", "q_10_9_11_2", spec_dec(LA, ["p10", "p09", "p11", "p02"], ["s10", "s09", "s11", "s02"]),
                           "plain and spread recomposition of limbs (10,9,11,2)"),
